@@ -1185,9 +1185,7 @@ def runtime_tables():
     if not m1 or not m2 or 'format!("{}{}_{}", CLOSURE_ENV_PREFIX, hint, self.next_id)' not in lift or 'format!("{}{}", CLOSURE_ENV_PREFIX, self.next_id)' not in lift:
         raise Exception("lift.rs closure naming changed")
     mono = re.sub(r"\s+", " ", _src("crates/compiler/src/mono.rs"))
-    for frag in ['.map(|(k, v)| format!("{}_{}", k, ty_compact(v))) .collect::<Vec<_>>() .join("__"); format!("{}__{}", orig, suffix)',
-                 'format!( "__{}", args.iter().map(ty_compact).collect::<Vec<_>>().join("__") )',
-                 'let func_name = trait_impl_fn_name(&trait_name, &receiver_ty, &method_name.0);']:
+    for frag in ['let func_name = trait_impl_fn_name(&trait_name, &receiver_ty, &method_name.0);']:
         if frag not in mono:
             raise Exception(f"mono.rs changed near: {frag[:70]}")
     # predeclared Go identifiers the emitted code relies on: literals used as Go names in runtime.rs / compile.rs
@@ -1202,8 +1200,18 @@ def runtime_tables():
             "entry_src": entry_src, "entry_go": entry_go, "closure_prefix": m1.group(1), "closure_apply": m2.group(1),
             "relied": relied, "qualified": qualified, "fixed_params": fixed_locals}
 
+def instance_spelling():
+    """which function spells the type arguments in instance names (mono.rs)"""
+    mono = re.sub(r"\s+", " ", _src("crates/compiler/src/mono.rs"))
+    m1 = re.search(r'fn ensure_instance\(&mut self, name: &str, args: &\[Ty\]\) -> TastIdent \{.*?format!\( "__\{\}", args\.iter\(\)\.map\((\w+)\)\.collect::<Vec<_>>\(\)\.join\("__"\) \)', mono)
+    m2 = re.search(r'fn spec_name_for\(orig: &str, s: &Subst\) -> String \{.*?\.map\(\|\(k, v\)\| format!\("\{\}_\{\}", k, (\w+)\(v\)\)\) \.collect::<Vec<_>>\(\) \.join\("__"\); format!\("\{\}__\{\}", orig, suffix\)', mono)
+    if not m1 or not m2:
+        raise Exception("mono.rs: ensure_instance / spec_name_for no longer build `Base__args` / `orig__K_ty` names this way")
+    return m1.group(1), m2.group(1)
+
 def gen_runtime():
     d = runtime_tables()
+    d["inst_spelling"], d["spec_spelling"] = instance_spelling()
     text = GEN_HEADER.format(src="go/runtime.rs, go/compile.rs, lift.rs, env.rs (Gensym), compile_match.rs/anf.rs (gensym call sites)") + f"""namespace Goml.Gen
 
 /-- Go functions `make_runtime` always declares (before dead-code elimination) -/
@@ -1228,6 +1236,11 @@ def closureApplyMethod : List Char := {_lean_chars(d["closure_apply"])}
 
 /-- predeclared Go identifiers that runtime.rs / compile.rs emit by name -/
 def reliedPredeclared : List (List Char) := {_lean_chars_list(d["relied"])}
+
+/-- the Rust function `TypeMono::ensure_instance` maps over the type arguments of `Base__a__b` -/
+def instanceArgSpelling : String := {_lean_str(d["inst_spelling"])}
+/-- … and the one `spec_name_for` applies to each substituted type -/
+def specArgSpelling : String := {_lean_str(d["spec_spelling"])}
 
 /-- parameter names hard-wired in generated helper functions -/
 def fixedParamNames : List (List Char) := {_lean_chars_list(d["fixed_params"])}
